@@ -632,6 +632,15 @@ macro_rules! real_map_scenarios {
             std::mem::forget(m);
         }
         // ---- small scenarios (the sharded map needs > 15 GB for the larger ones) ----
+        /// minimal first-writer-wins: the loser of an insertion is dropped, the winner keeps value and address
+        fn s_fww_min() {
+            let m = AssetMap::new();
+            let (v, w): (u8, u8) = (nd(), nd());
+            let h1 = ptr(m.insert(CacheEntry::new(A(v), "a".into(), || false)));
+            let h2 = m.insert(CacheEntry::new(A(w), "a".into(), || false));
+            assert!(ptr(h2) == h1 && a_val(h2) == v, "C01/C13 first writer wins: a losing insertion never replaces (or drops) the cached value");
+            std::mem::forget(m);
+        }
         fn s_two_present() {
             let m = AssetMap::new();
             let (v, w): (u8, u8) = (nd(), nd());
